@@ -92,6 +92,9 @@ def proposal_ok(rq, ae, classes, maxlen):
     return len(raw) == rq.total_length() and len(seen_cls) == len(want)
 
 
+PEER_MAX = [16384]          # maximum length the scripted peer announces in its reply (set by a condition)
+
+
 def reply_for(rq, results, tsi, order=None):
     """order: permutation of the result items (PS3.8 ties results to proposals by context id, not by position)"""
     items = [pdu.ApplicationContextItem(A.APP_CTX)]
@@ -103,7 +106,7 @@ def reply_for(rq, results, tsi, order=None):
     if order is not None:
         acs = [acs[j] for j in order if j < len(acs)]
     items += acs
-    items.append(A.user_info(16384))
+    items.append(A.user_info(PEER_MAX[0]))
     return pdu.AAssociateAcPDU(rq.called_ae_title, rq.calling_ae_title, items)
 
 
@@ -284,6 +287,82 @@ def request_again(res: int, src: int, rsn: int, a0: bool, a1: bool, t0: int) -> 
     ok2, n_acc = usable_ok(rqr, state['rq2'], classes, results, tsi)
     ok = ok and ok2
     deep(ok and n_acc == 2)
+    return ok
+
+
+@cond(bounds='the peer\'s reply announces maximum length 0 (no limit), 1, 7, 16383, 16384, 16385, 2^32-1 (symbolic '
+             'selector; configured maximum 16384) and accepts / rejects two contexts (symbolic): usable contexts and '
+             'service look-up follow from the reply whatever the announced length; negotiated sending limit = announced '
+             'value unless it is 0 or larger than the configured one', timeout=240)
+def reply_peer_maximum(mi: int, a0: bool, a1: bool, t0: int) -> bool:
+    """
+    pre: 0 <= mi <= 6 and 0 <= t0 <= 1
+    post: _
+    """
+    pm = (0, 1, 7, 16383, 16384, 16385, 0xFFFFFFFF)[pick(mi, 0, 6)]
+    ae = new_ae('LOCAL_AE', TSU[:2], 16384)
+    classes = configure(ae, [2], [0])
+    results = (0 if a0 else 3, 0 if a1 else 1)
+    tsi = (pick(t0, 0, 1), 1)
+    PEER_MAX[0] = pm
+    try:
+        rqr, rq = run_request(ae, 16384, results, tsi)
+    finally:
+        PEER_MAX[0] = 16384
+    ok, n_acc = usable_ok(rqr, rq, classes, results, tsi)
+    ok = ok and rqr.max_pdu_length == (pm if 0 < pm < 16384 else 16384)
+    deep(ok and pm == 0 and n_acc == 2)
+    return ok
+
+
+def proposal_per_class_ok(rq, want):
+    """want: list of (sop class, sorted transfer syntaxes) in configuration order"""
+    items = rq.variable_items[1:-1]
+    if len(items) != len(want):
+        return False
+    got = sorted((str(it.abs_sub_item.name), sorted(str(t.name) for t in it.ts_sub_items)) for it in items)
+    return got == sorted((c, sorted(t)) for c, t in want)
+
+
+@cond(bounds='classes configured with DIFFERENT transfer-syntax sets (the entity\'s supported syntaxes are changed between '
+             'add_scu calls; each context definition captures them when it is made): 3 calls, the syntax set of each '
+             'chosen by a symbolic selector over 4 subsets of 3 syntaxes: every class is proposed with the syntaxes it '
+             'was configured with, and what the peer accepts is bound to a syntax proposed for that class',
+      timeout=240)
+def proposal_mixed_syntaxes(s0: int, s1: int, s2: int) -> bool:
+    """
+    pre: 0 <= s0 <= 3 and 0 <= s1 <= 3 and 0 <= s2 <= 3
+    post: _
+    """
+    SETS = [[TSU[0]], [TSU[1]], [TSU[0], TSU[2]], [TSU[2], TSU[1], TSU[0]]]
+    sel = [pick(x, 0, 3) for x in (s0, s1, s2)]
+    ae = new_ae('LOCAL_AE', SETS[sel[0]], 16384)
+    want = []
+    for i, si in enumerate(sel):
+        ae.supported_ts = frozenset(SETS[si])
+        cl = POOL[2 * i:2 * i + 2]
+        ae.add_scu(Svc('svc%d' % i), cl)
+        want += [(c, SETS[si]) for c in cl]
+    A.patch_provider([])
+    rqr = asceprovider.AssociationRequester(ae, 16384, REMOTE)
+    state = {}
+
+    def receive(timeout):
+        state['rq'] = rq = rqr.dul.sent[0]
+        items = [pdu.ApplicationContextItem(A.APP_CTX)]
+        for it in rq.variable_items[1:-1]:
+            # the peer picks the LAST syntax proposed for each context
+            items.append(pdu.PresentationContextItemAC(it.context_id, 0,
+                                                       pdu.TransferSyntaxSubItem(str(it.ts_sub_items[-1].name))))
+        items.append(A.user_info(16384))
+        return pdu.AAssociateAcPDU(rq.called_ae_title, rq.calling_ae_title, items)
+    rqr.dul.receive = receive
+    rqr.request()
+    ok = proposal_per_class_ok(state['rq'], want)
+    for c, tss in want:
+        ctx = [v for v in rqr.accepted_contexts.values() if str(v.sop_class) == c]
+        ok = ok and len(ctx) == 1 and str(ctx[0].supported_ts) in tss
+    deep(ok and sel[0] != sel[1] and sel[1] != sel[2])
     return ok
 
 
